@@ -135,3 +135,20 @@ Theorem c01_code_parse_data_refines_model : forall (f : Frame.frame) rho b q m,
 Proof. exact code_parse_data_refines_model. Qed.
 Print Assumptions c01_code_parse_data_refines_model.
 
+(* ---- libwifi_get_wpa_data AS TRANSLATED (Gen/Sites.v), only the frame body readable: the declared Key Data Length - a hostile 16-bit field - is clamped to 1024 AND to what the
+   body carries behind the 107-octet descriptor, whatever it says (also stated as c12_code_get_wpa_data_safe) ---- *)
+From LW Require Import Model.Eapol Proofs.CodeEapol.
+(* every memcpy reads inside the body; the key-data copy takes at most what is present and at most 1024 octets *)
+Theorem c01_code_get_wpa_data_safe : forall b a hl ty rho mc,
+  wfbytes b -> 0 < a -> a + zlen b < 2 ^ 62 -> hl = 24 \/ hl = 26 ->
+  hs_accepts b ty hl (hl + zlen b) mc = true ->
+  wrap s32 (rho "ret:libwifi_check_wpa_handshake") = 1 ->
+  exists v tr,
+    observe (exec 60 (mem_at a b) (frame_env rho ty (hl + zlen b) hl a) [] body_libwifi_get_wpa_data) = Some (Some v, tr) /\
+    (v = 0 \/ v = -12) /\
+    forall d s n, In ("memcpy", [d; s; n]) tr ->
+      a <= s /\ 0 <= n /\ s + n <= a + zlen b /\
+      (s = a + 13 /\ n = 94 \/
+       s = a + 107 /\ n <= 1024 /\ n <= zlen b - 107 /\ n <= 256 * znth b 105 + znth b 106 /\ d = wrap u64 (rho "ret:malloc") /\ d <> 0).
+Proof. exact code_get_wpa_data_safe. Qed.
+Print Assumptions c01_code_get_wpa_data_safe.
